@@ -199,6 +199,35 @@ def run(ctx):
                 ctx.bad(rule, key, "the Field255 decode path masks the top bit", loc=f2.loc)
     except Skip:
         pass
+    # every caller of try_from_bytes other than the sampler decodes without masking
+    n_sites = 0
+    for f in ctx.prog.fns:
+        if f.body is None or ctx.prog.is_test_util(f):
+            continue
+        for bi, t in f.body.calls():
+            if t.callee.name != "try_from_bytes":
+                continue
+            g = ctx.guards(f)
+            c = g.eb.call_expr(t)
+            full = t.callee.bestfull or ""
+            is255 = "Field255" in full
+            sampler = f.name == "try_from_random"
+            n_sites += 1
+            key = "%s:%s:try_from_bytes-mask" % (rule, f.id)
+            m = c[2][1]
+            if sampler:
+                okm = Lit(1)(m) if is255 else Sym("BIT_MASK")(m)
+                want = "the sampling mask"
+            else:
+                okm = Lit(0)(m) if is255 else ("MAX" in fmt(m))
+                want = "no mask (mask_top_bit = false / <int>::MAX)"
+            if okm:
+                ctx.ok(rule, key, "%s calls try_from_bytes with %s" % (f.id, want), loc=f.loc)
+            else:
+                ctx.bad(rule, key, "%s calls try_from_bytes with mask argument %s; a decoder must use %s, otherwise non-canonical "
+                                   "encodings are accepted" % (f.id, fmt(m)[:60], want), loc=f.loc)
+    if n_sites < 12:
+        ctx.bad(rule, rule + ":try_from_bytes-sites", "expected at least 12 try_from_bytes call sites, found %d" % n_sites, kind="anchor")
     for nm in ("get_decoded_with_param",):
         try:
             f = ctx.fn(rule, name=nm, id_re=r"^codec::ParameterizedDecode::get_decoded_with_param$")
